@@ -391,4 +391,46 @@ Proof.
     + intro Hw. apply guard_worst_false; try lia. exact G2.
 Qed.
 
+(* the main branch returns the axis intercepts of the hyperplane through the extreme points:
+   sum_j (z_j - best_j) / a_j = 1 for every extreme point z *)
+Corollary find_intercepts_main_plane :
+  fst (find_intercepts_b ext best worst fw) = BMain ->
+  forall z, In z ext -> vdot (map2 Qminus z best) (map Qinv (find_intercepts ext best worst fw)) == 1.
+Proof.
+  intro B. unfold find_intercepts. pose proof find_intercepts_spec as S.
+  destruct (find_intercepts_b ext best worst fw) as [br a]. cbn [fst] in B. subst br. cbn [snd].
+  destruct S as [_ [_ [P _]]]. exact P.
+Qed.
+
+(* whatever the branch, the result is the remembered worst point, the worst point of the sorted
+   fronts, or a vector of intercepts that passes the guards of the code *)
+Corollary find_intercepts_guards :
+  let r := find_intercepts ext best worst fw in
+  r = worst \/ r = fw \/
+  (length r = M /\
+   forall j, (j < M)%nat -> icpt_min < nth j r 0 /\ ((j < length worst)%nat -> nth j r 0 + nth j best 0 <= nth j worst 0)).
+Proof.
+  unfold find_intercepts. pose proof find_intercepts_spec as S.
+  destruct (find_intercepts_b ext best worst fw) as [br a]. cbn [snd].
+  destruct br.
+  - left. apply S.
+  - right. left. apply S.
+  - right. left. apply S.
+  - right. right. destruct S as [L [_ [_ G]]]. split; [exact L|exact G].
+Qed.
+
+(* the LinAlgError branch is taken exactly for the singular systems *)
+Corollary find_intercepts_singular_iff :
+  fst (find_intercepts_b ext best worst fw) = BSingular <->
+  exists v, length v = M /\ ~ Forall (fun q => q == 0) v /\
+            forall z, In z ext -> vdot (map2 Qminus z best) v == 0.
+Proof.
+  split.
+  - intro B. pose proof find_intercepts_spec as S.
+    destruct (find_intercepts_b ext best worst fw) as [br a]. cbn [fst] in B. subst br. apply S.
+  - intros [v [Lv [NZ K]]]. unfold find_intercepts_b. fold M. fold A.
+    destruct (solve M (zip A (repeat 1 M))) as [x|] eqn:S; [exfalso|reflexivity].
+    apply NZ. apply (solve_some_regular _ _ _ A_wf S A_len v Lv). now apply A_kernel.
+Qed.
+
 End Intercepts.
